@@ -1,6 +1,7 @@
 //! nlh: the conformance harness between the TLA+ specifications in /verif/spec and the
 //! real interpreter in /repo (built with the `verif` feature).
 mod ast;
+mod bcfam;
 mod encfam;
 mod gcfam;
 mod gen;
@@ -60,6 +61,7 @@ fn main() {
         }
         "gen-sem" => semfam::gen_sem(&args),
         "gen-corpus" => semfam::gen_corpus(&args),
+        "gen-bc" => bcfam::gen_bc(&args),
         "show" => semfam::show(&args),
         other => {
             eprintln!("unknown command {other}");
